@@ -28,8 +28,26 @@ func genC03(t *rapid.T) kit.History {
 	cfg := kit.WorldCfg{Stores: []kit.StoreCfg{c03Cfg.Stores[0]}}
 	cfg.BasePath = [][]string{nil, {"root", "a"}, {"root", "a", "b"}, {"root", "a", "b", "c"}}[rapid.IntRange(0, 3).Draw(t, "basePathDepth")]
 	cfg.Stores[0].Keyed = rapid.IntRange(0, 2).Draw(t, "keyed") == 0
+	u := c03Universe
+	if rapid.Bool().Draw(t, "uniqueSerial") {
+		// a unique index over an int64 field: index keys are not strings
+		cfg.Stores[0].UniqueSerial = true
+		u.Serials = []int64{0, 1, 2, 7, 1001, -1, 1 << 40}
+		u.Fields = append(append([]string{}, u.Fields...), kit.FSerial)
+	}
+	withKids := rapid.IntRange(0, 2).Draw(t, "children") == 0
+	if withKids {
+		// two child types over the store: an extended one registered first, then a plain one that has an index of its own
+		cfg.Children = []kit.ChildCfg{{Name: "kx", Parent: "things", Extended: true}, {Name: "ky", Parent: "things", UniqueExtra: true}}
+		u.Extras = []string{"", "x1", "x2", "x3"}
+		u.Fields = append(append([]string{}, u.Fields...), kit.FExtra)
+	}
 	return kit.GenHistory(t, cfg, 25, 4, true, 60, func(t *rapid.T, l string, m *kit.Model) kit.Op {
-		op := kit.GenEntOpM(t, l, "things", c03Universe, m)
+		store := "things"
+		if withKids {
+			store = []string{"things", "things", "things", "ky", "ky", "kx"}[rapid.IntRange(0, 5).Draw(t, l+"_via")]
+		}
+		op := kit.GenEntOpM(t, l, store, u, m)
 		// set values whose concatenation is ambiguous: {a,bc} and {ab,c} have the same size and the same joined bytes
 		if op.Spec != nil && rapid.IntRange(0, 5).Draw(t, l+"_regroup") == 0 {
 			op.Spec.Roles = []string{"a", "bc"}
